@@ -1123,6 +1123,7 @@ func finish(r *runner, prop, tier string, seed uint64, cfg propCfg, known []know
 	head, dirty := gitInfo()
 	os.MkdirAll(filepath.Join(outDir, "replays"), 0755)
 	exit := 0
+	unconfirmed := false
 	knownSeen := append([]string(nil), r.witnessSeen...)
 	reported := 0
 	for _, s := range sigs {
@@ -1198,7 +1199,7 @@ func finish(r *runner, prop, tier string, seed uint64, cfg propCfg, known []know
 				got = x.Verdict + " " + x.Sig
 			}
 			fmt.Fprintf(os.Stderr, "vcheck: violation %s (seed %d) did not reproduce in a fresh process (got %s): treated as harness trouble\n", v.Sig, v.Seed, got)
-			exit = 2
+			unconfirmed = true
 			continue
 		}
 		mini, runs := r.minimise(final, v.Sig, v.variant, 160)
@@ -1263,7 +1264,9 @@ func finish(r *runner, prop, tier string, seed uint64, cfg propCfg, known []know
 			}
 		}
 	}
-	if harnessTrouble && exit == 0 {
+	// a confirmed violation (replay file written) decides the run; classes that did not reproduce
+	// next to it are by-products (a memory-corrupting change crashes in many non-repeatable ways)
+	if (harnessTrouble || unconfirmed) && exit == 0 {
 		exit = 2
 	}
 	writeEvidence(r, prop, tier, seed, cfg, t0, len(viol), knownSeen, nil)
